@@ -303,8 +303,8 @@ func c07Check(run *Run, c *fedCase, r *rand.Rand, worker int) {
 
 func runC07(run *Run, replay string) Spec {
 	spec := Spec{
-		Level: "translation_validation",
-		Rule: "cases as in C01; after the fault-free run, (S) every request to one subgraph or (K) every request with one (subgraph, operation) key is failed with one of six fault kinds (transport error, HTTP 500, empty body, non-JSON body, errors without data, wrong entity count): one well-formed response in bounded time, at least one error, the data is the fault-free data with subtrees nulled, in mode S exactly the reference execution with that subgraph's exclusive fields unavailable (Lean executor), and every request sent has a fault-free counterpart with the same operation and a subset of its representations. non-trivial = a fault was actually injected; distinct = distinct (case, victim, fault)",
+		Level:       "translation_validation",
+		Rule:        "cases as in C01; after the fault-free run, (S) every request to one subgraph or (K) every request with one (subgraph, operation) key is failed with one of six fault kinds (transport error, HTTP 500, empty body, non-JSON body, errors without data, wrong entity count): one well-formed response in bounded time, at least one error, the data is the fault-free data with subtrees nulled, in mode S exactly the reference execution with that subgraph's exclusive fields unavailable (Lean executor), and every request sent has a fault-free counterpart with the same operation and a subset of its representations. non-trivial = a fault was actually injected; distinct = distinct (case, victim, fault)",
 		TrustedBase: []string{"the Lean reference executor with unavailable coordinates as the meaning of 'null-propagated'", "fault injection in the harness' RoundTripper; exclusive-field computation from the subgraph SDLs"},
 		Assumptions: []string{"mode S compares exactly only because in layout L1 a field is either exclusive to one subgraph or not decided by it; partial failures (mode K) are judged by the nulling order and the request rule", "timing: 'promptly' is a 20 s bound"},
 	}
